@@ -256,6 +256,23 @@ class VList(VTuple):
     kind = "list"
 
 
+class VArrN(VList):
+    """numpy 1-D array of concrete length (along the *materials* axis); arithmetic is element-wise
+    with scalar broadcasting (A2).  A possible trailing wavelength axis is carried by index
+    semantics of the element values."""
+    kind = "ndarray"
+
+
+class VArrTag:
+    """an opaque numpy array known only by name (e.g. the columns of an interpolation table)"""
+
+    def __init__(self, name):
+        self.name = name
+
+    def __repr__(self):
+        return "VArrTag(%s)" % self.name
+
+
 class VDict:
     """dictionary with a concrete number of entries; keys may be symbolic."""
 
